@@ -18,7 +18,9 @@ ASSUMPTIONS = TRUSTED_BASE + [
     "Sound wherever no denominator vanishes (|q| != 0, non-coincident atoms).  The earlier attempt (R^T R = I, det R = 1 as constraints) stayed `unknown` in z3 nlsat and cvc5",
     "periodic Dihedral: decided compositionally -- with pbc_dist_coordinate replaced by a recording stub the real calculate() wraps exactly its three bond vectors with the system's box, and its angle is the non-periodic angle of a chain "
     "built from the wrapped vectors (rational-function identity); box-vector shift invariance then follows from the clause pbc_image_shift_invariant. Periodic Puckering is not covered",
-    "NOT DECIDED: rotation invariance of Puckering (18 coordinates x quaternion: the canonical forms did not finish in 40 min); reflections are not rotations and change the sign of a dihedral (checked: the back end answers `unknown` for a reflection)",
+    "rotation invariance of Puckering: decided COMPOSITIONALLY (the brute-force identity over 18 coordinates x quaternion did not finish in 40 min): cross(Ra,Rb) = R cross(a,b) and dot(Ra,Rb) = dot(a,b) are proved as identities for generic vectors; "
+    "the real calculate() then runs on positions and rotated positions with np.cross / np.dot / np.linalg.norm as recording operators (first run: fresh symbols; second run: arguments must be R times the first run's, results are R times resp. equal to the first run's, "
+    "which is what the lemmas say the real operators return); the two results are identical. Reflections are not rotations and change the sign of a dihedral (checked: the back end answers `unknown` for a reflection)",
     "image-shift clauses: box lengths range over {1, 2, 4} (keeps the rint/shift algebra linear); coordinates and the integer shift counts are fully symbolic; Distance/Distancevel shift in one periodic dimension",
 ]
 EXPLANATION = (
@@ -40,7 +42,8 @@ def jobs(tier):
         "distancevel_engine_vel_rev", "velocity_engine_vel_rev", "distance_engine_vel_rev",
     ]
     js = [("py", {"name": n, "module": "props.C20", "fn": "run_clause", "clause": n, "cost": 5 if "pucker" in n else 1}) for n in names]
-    js += [("py", {"name": n, "module": "props.C20", "fn": "run_rotation", "clause": n, "cost": 8}) for n in ("distance_rotation", "dihedral_rotation")]  # puckering_rotation: expression swell (18 coordinates x quaternion), not decided
+    js += [("py", {"name": n, "module": "props.C20", "fn": "run_rotation", "clause": n, "cost": 8}) for n in ("distance_rotation", "dihedral_rotation")]
+    js.append(("py", {"name": "puckering_rotation", "module": "props.C20", "fn": "run_puckering_rotation", "clause": "puckering_rotation", "cost": 8}))
     return js
 
 
@@ -529,3 +532,141 @@ def replay(obname, w):
     if w.get("error"):
         return {"reproduced": True, "detail": w["error"]}
     return {"reproduced": False, "detail": "no native reconstruction for this clause"}
+
+
+# ------------------------------------------------------------------ Puckering rotation invariance, compositionally
+def run_puckering_rotation(spec, tier, seed):
+    """Time-boxed wrapper (forked child, 400 s): sympy has no budget of its own; a run that does not finish is `unknown`."""
+    import multiprocessing as mp
+    ctx = mp.get_context("fork")
+    a, b = ctx.Pipe(duplex=False)
+
+    def child():
+        try:
+            b.send(_puckering_rotation(spec, tier, seed))
+        except BaseException as e:
+            b.send({"error": repr(e)})
+    p = ctx.Process(target=child)
+    p.start()
+    r = a.recv() if a.poll(400) else {"error": "no result within 400 s"}
+    p.join(2)
+    if p.is_alive():
+        p.kill()
+    if "error" in r:
+        return {"job": "puckering_rotation", "obligations": [{"name": "puckering_rotation/components_identical", "result": "unknown", "label": "proved-per-shape", "backend": "sympy", "time_s": 400.0,
+                                                              "engine": "E2", "solver_output": r["error"]}]}
+    return r
+
+
+def _puckering_rotation(spec, tier, seed):
+    """Rotation invariance of Puckering (non-periodic) by composition -- the brute-force rational identity (18 coordinates x
+    quaternion) does not finish.  Three vector lemmas are proved once as rational-function identities for generic symbolic
+    vectors a, b and R = R(q):   cross(Ra, Rb) = R cross(a, b),   dot(Ra, Rb) = dot(a, b)   (hence |Ra| = |a|).
+    Then the REAL Puckering.calculate runs twice -- on symbolic positions and on the R(q)-rotated ones -- with np.cross,
+    np.dot and np.linalg.norm replaced by recording operators: in the first run each call returns fresh symbols (a sound
+    generalisation: the result is some function of the arguments); in the second run the k-th call must have arguments that are
+    R times the first run's arguments (checked as rational identities) and then returns R times the first run's result (cross) resp.
+    the same scalar (dot, norm) -- exactly what the lemmas say the real operators return.  Everything else (centering, the
+    trigonometric sums, sqrt, arctan2, the phi < 0 branch) is the real code on those symbols; the two results must be identical."""
+    import time
+    import numpy as np
+    import z3
+    import sympy
+    import infretis.classes.orderparameter as op
+    from symnp.npproxy import NPProxy
+    from symnp.ratid import FieldTranslator, consts_of
+    from symnp.sym import Explorer, Sym, explore, sym_array, tz
+    Explorer.div_zero_policy = "assume"
+    t0 = time.time()
+    results = {}
+
+    def ident(pairs):
+        terms = [tz(x) for p in pairs for x in p]
+        tr = FieldTranslator(consts_of(terms))
+        return all(tr.identical(tz(x), tz(y)) for x, y in pairs)
+
+    # ---- lemmas on generic vectors
+    class _Ex:
+        def assume(self, *a):
+            pass
+    R = _rotation_q(_Ex())
+    a, b = sym_array("la", (3,)), sym_array("lb", (3,))
+    Ra, Rb = _rot(R, a.reshape(1, 3))[0], _rot(R, b.reshape(1, 3))[0]
+    c, c2 = np.cross(a, b), np.cross(Ra, Rb)
+    Rc = _rot(R, c.reshape(1, 3))[0]
+    results["lemma_cross_is_equivariant_under_proper_rotations"] = "unsat" if ident(list(zip(c2, Rc))) else "unknown"
+    results["lemma_dot_is_invariant_under_rotations"] = "unsat" if ident([(np.dot(Ra, Rb), np.dot(a, b))]) else "unknown"
+
+    # ---- the two runs of the real code
+    state = {"run": 0, "calls": [], "k": 0, "bad": []}
+
+    def rel(v2, v1, Rm):
+        v1r = _rot(Rm, np.asarray(v1, dtype=object).reshape(1, 3))[0]
+        return ident(list(zip(np.asarray(v2, dtype=object), v1r)))
+
+    class P(NPProxy):
+        def cross(self, x, y):
+            return self._op("cross", x, y)
+
+        def dot(self, x, y):
+            return self._op("dot", x, y)
+
+        def _op(self, kind, x, y=None):
+            if state["run"] == 1:
+                k = len(state["calls"])
+                out = sym_array(f"{kind}{k}", (3,)) if kind == "cross" else Sym(z3.Real(f"{kind}{k}"))
+                state["calls"].append((kind, x, y, out))
+                return out
+            k = state["k"]
+            state["k"] += 1
+            if k >= len(state["calls"]) or state["calls"][k][0] != kind:
+                state["bad"].append(f"call {k}: {kind} has no counterpart in the first run")
+                return sym_array(f"x{k}", (3,)) if kind == "cross" else Sym(z3.Real(f"x{k}"))
+            _, x1, y1, out1 = state["calls"][k]
+            if not rel(x, x1, state["R"]) or (y is not None and not rel(y, y1, state["R"])):
+                state["bad"].append(f"call {k}: arguments of {kind} in the rotated run are not R times those of the first run")
+            return _rot(state["R"], out1.reshape(1, 3))[0] if kind == "cross" else out1
+
+    class _LA:
+        def __init__(self, proxy):
+            self.proxy = proxy
+
+        def norm(self, v):
+            return self.proxy._op("norm", v)
+
+    def scen(ex):
+        s = _mk(ex, 7, 3)
+        s.box = None
+        Rm = _rotation_q(ex)
+        state.update(run=1, calls=[], k=0, bad=[], R=Rm)
+        proxy = P()
+        proxy.linalg = _LA(proxy)
+        op.np = proxy
+        try:
+            o = op.Puckering(tuple(range(6)), periodic=False)
+            r1 = o.calculate(s)
+            state["run"] = 2
+            r2 = o.calculate(_clone(s, pos=_rot(Rm, s.pos)))
+        finally:
+            op.np = np
+        return r1, r2, list(state["bad"]), len(state["calls"]), state["k"]
+
+    try:
+        runs = explore(scen, max_paths=16)
+    except Exception as e:
+        results["exploration"] = "unknown"
+        runs, err = [], repr(e)
+    npaths = 0
+    for ex, (r1, r2, bad, n1, n2) in runs:
+        npaths += 1
+        ok_calls = not bad and n1 == n2
+        results["every_vector_operation_of_the_rotated_run_gets_R_times_the_arguments"] = "unsat" if ok_calls and results.get("every_vector_operation_of_the_rotated_run_gets_R_times_the_arguments", "unsat") == "unsat" else "unknown"
+        for k, (x, y) in enumerate(zip(r1, r2)):
+            nm = f"component{k}_identical"
+            ok = ident([(x, y)])
+            results[nm] = "unsat" if ok and results.get(nm, "unsat") == "unsat" else "unknown"
+    if not npaths:
+        results["some_feasible_path"] = "unknown"
+    obs = [{"name": f"puckering_rotation/{g}", "result": r, "label": "proved-per-shape", "backend": "sympy-" + sympy.__version__ + " (rational-function identities, compositional)", "time_s": round(time.time() - t0, 2),
+            "engine": "E2", "solver_output": None if r == "unsat" else "not identical / operation mismatch (undecided, never a refutation)"} for g, r in results.items()]
+    return {"job": "puckering_rotation", "obligations": obs, "coverage_extra": {"e2_paths": npaths}, "samples": [{"clause": "puckering_rotation", "paths": npaths}]}
